@@ -111,14 +111,28 @@ def evaluate(case):
         open(ip, "wb").write(img)
         os.utime(ip, (1111111111, 1111111111))
         r_path = os.path.join(j, "R")
-        if case["preexist"]:
+        if case["preexist"] or case.get("prefill"):
             os.mkdir(r_path)
+        if case.get("prefill"):
+            # R is not fresh: an earlier unpack (of another crafted image) left an object under the name the image uses
+            pb = os.path.join(r_path, "sub") if case["nested"] else r_path
+            if case["nested"]:
+                os.mkdir(pb)
+            pn = os.path.join(pb, "a")
+            pf = case["prefill"]
+            if pf == "file":
+                open(pn, "wb").write(b"earlier\n")
+            elif pf == "dir":
+                os.mkdir(pn)
+            else:
+                os.symlink({"slink->outside": os.path.join(j, "outside"), "slink->outside/s1": os.path.join(j, "outside", "s1"), "slink->rel-outside": "../outside" if not case["nested"] else "../../outside",
+                            "slink->outside/new": os.path.join(j, "outside", "new")}[pf], pn)
         before = snapshot(j)
         argv = [T["rdsquashfs"], "-u", case["upath"], "-p", "R"] + case["opts"] + ["hostile.sqfs"]
         r = run_tool_hangcheck(argv, cwd=j, timeout=20)
         after = snapshot(j)
         K = kind_alphabet(j)
-        label = ("extended inodes, " if case.get("ext") else "") + "listing %s%s, options %s, unpack path %s, R %s" % (
+        label = ("R holds %s left by an earlier unpack, " % case["prefill"] if case.get("prefill") else "") + ("extended inodes, " if case.get("ext") else "") + "listing %s%s, options %s, unpack path %s, R %s" % (
             [(names[ni].decode("latin1").replace(j, "<J>"), K[ki][0], tov) for ni, ki, tov in case["entries"]], " (nested in /sub)" if case["nested"] else "",
             case["opts"], case["upath"], "pre-existing" if case["preexist"] else "absent")
 
@@ -143,7 +157,7 @@ def evaluate(case):
                 r.rc, "\n  ".join(diffs[:6]), r.err.decode("latin1")[-600:]))
         # skipped entries must be reported; with exit 0 the sane unique entries exist with the right type
         res = dict(status="ok", rc=r.rc, nontrivial=(b"R" in after))
-        if r.rc == 0:
+        if r.rc == 0 and not case.get("prefill"):
             cnt = {}
             eff = lambda nm_: nm_.split(b"\x00")[0]     # the tool reads names as C strings
             for ni, ki, tov in case["entries"]:
@@ -243,6 +257,13 @@ def gen_cases(tier):
     for kind_ in ("file", "dir"):
         for o in (["-X"], ["-C", "-O", "-T", "-X"], ["-C"], ["-O", "-T"], []):
             cases.append(dict(entries=[], nested=False, opts=o, upath="/", preexist=False, ext=False, mirror=kind_))
+    # R is not fresh: an object of every kind (symlinks leading outside included) already sits under the name the image uses - every kind of image entry x options
+    for pf in ("slink->outside", "slink->outside/s1", "slink->rel-outside", "slink->outside/new", "file", "dir"):
+        for ki in range(nk if not quick else 6):
+            for o in ([], ["-C", "-O", "-T", "-X"], ["-X"], ["-C"]):
+                cases.append(dict(entries=[(0, ki, None)], nested=False, opts=o, upath="/", preexist=False, ext=False, prefill=pf))
+            cases.append(dict(entries=[(0, ki, None)], nested=True, opts=["-C", "-O", "-T", "-X"], upath="/", preexist=False, ext=False, prefill=pf))
+            cases.append(dict(entries=[(0, ki, None)], nested=True, opts=[], upath="/sub", preexist=False, ext=False, prefill=pf))
     # unpack of a sub path
     for ni in (0, 2, 6):
         for ki in (0, 1, 4, 5):
